@@ -398,7 +398,7 @@ pub fn run(run: &Arc<Run>) {
         run.absorb(l);
         return;
     }
-    let n = run.cfg.by(3_000u64, 24_000);
+    let n = run.cfg.by(3_000u64, 96_000);
     run.par(n, |i, l| {
         let c = make_case(seed, i, quick);
         if c.f32 {
